@@ -98,7 +98,7 @@ class ReactorStub:
 class PeerWorld:
     _runs = 0
 
-    def __init__(self, hold=9, local_as=65000, peer_as=65001, passive=False, extra='', static='', openwait=60, tail='', route_refresh=True, receive=True) -> None:
+    def __init__(self, hold=9, local_as=65000, peer_as=65001, passive=False, extra='', static='', openwait=60, tail='', route_refresh=True, receive=True, slow_reader=None) -> None:
         RIB._cache.clear()
         Connection.identifier.clear()
         self._fmt = dict(hold=hold, local_as=local_as, peer_as=peer_as, passive='passive true;' if passive else '', extra=extra, rr='enable' if route_refresh else 'disable',
@@ -113,6 +113,7 @@ class PeerWorld:
         self.api_calls: list = []
         self.reactor = ReactorStub(self)
         self.passive = passive
+        self.slow_reader = slow_reader      # (bytes per read, ms between reads) or None
         self.peer_as = peer_as
         self.hold = hold
         self.remote: socket.socket | None = None  # remote end of the current transport
@@ -185,6 +186,10 @@ class PeerWorld:
             a, b = socket.socketpair()
             a.setblocking(False)
             b.setblocking(False)
+            if world.slow_reader:
+                # a remote end which reads slowly: small kernel buffers, so that our writes really wait for it
+                a.setsockopt(socket.SOL_SOCKET, socket.SO_SNDBUF, 4096)
+                b.setsockopt(socket.SOL_SOCKET, socket.SO_RCVBUF, 4096)
             conn.io = a
             conn.local = '127.0.0.1'
             conn.success()
@@ -247,7 +252,9 @@ class PeerWorld:
         buf = b''
         try:
             while True:
-                data = await loop.sock_recv(sock, 65536)
+                if self.slow_reader:
+                    await asyncio.sleep(self.slow_reader[1] / 1000.0)
+                data = await loop.sock_recv(sock, self.slow_reader[0] if self.slow_reader else 65536)
                 if not data:
                     self.log('remote', what='eof', c=cid)
                     return
